@@ -478,6 +478,10 @@ def defectCell : Mgr → Stanza → Bool
   | .uploadRequest, s => isReq s.type && (headIs s .slot .upload || headIs s .request .upload)
   | _, _ => false
 
+/-- managers whose `handleStanza` today has at least one defect cell -/
+def defectiveMgrs : List Mgr :=
+  [.vcard, .roster, .archive, .bookmark, .mam, .registration, .rpc, .transfer, .uploadRequest]
+
 /-- old-style handlers are not called for decrypted IQs, so their defects cannot show there -/
 def Row.defect (r : Row) (s : Stanza) : Bool :=
   if s.enc && !r.newStyle then false else defectCell r.mgr s
